@@ -422,3 +422,8 @@ def run(ctx):
         ctx.ob("R-C13.8", dbp, "flag-checked-under-the-journal-lock", ok,
                "Database::persist takes the journal lock, then looks at the flag" if ok else
                "Database::persist looks at the poison flag without holding the journal lock: a writer can fail and poison in between, and persist then reports success on a failed journal")
+
+    # ---- borrowed obligations (mechanisms owned by other properties that this property's verdict also rests on)
+    # reopening after a failed (short) write recovers what was acknowledged: the torn tail is cut, never fatal
+    ctx.borrow("C03", ["R-C03.3"], "R-C13.9")
+
